@@ -744,5 +744,7 @@ fn main() {
     run.bound("build_variants", "std + serde-json (this process); std + serde-json + string-only (child process, same domain)");
     run.variant("string_only");
     let _ = BigInt::zero();
+    // ... and against the subject built under a non-default compile-time configuration (mc/variants/cfg_alt/build.env)
+    run.variant("cfg_alt");
     run.finish();
 }
